@@ -1443,7 +1443,9 @@ func (m *StateMachine) beginCommit(
 			"round", rlc.R,
 			"committing_hash", glog.Hex(vrv.VoteSummary.MostVotedPrecommitHash),
 		)
-		return
+		// Not a failure: the finalize request is made from handleCommitWaitViewUpdate
+		// once the proposed header arrives.
+		return true
 	}
 
 	return gchan.SendC(
